@@ -1,4 +1,6 @@
 import GqlProofs.Cost
+import GqlProofs.CostSize
+import GqlProofs.CostWeight
 import GqlProofs.OverlapCost
 import GqlProofs.GraphCost
 import GqlProofs.VisitorCount
@@ -54,106 +56,6 @@ theorem planQuery_cost_le_top_level_size (s : Schema) (doc : Document) (opName :
       simpa [rootPlan, Env.ctx] using this
 
 /-! ### the top-level size is at most the number of selection sets written in the document -/
-
-mutual
-/-- all selection sets below a selection, also through fields -/
-def setsSel : Selection → Nat
-  | .field _ _ _ _ none _ => 0
-  | .field _ _ _ _ (some ss) _ => setsSet ss
-  | .spread _ _ _ => 0
-  | .inline _ _ ss _ => setsSet ss
-def setsSet : SelectionSet → Nat
-  | .mk sels _ => 1 + setsSels sels
-def setsSels : List Selection → Nat
-  | [] => 0
-  | s :: rest => setsSel s + setsSels rest
-end
-
-def opSets (defs : List Definition) : Nat :=
-  (defs.map (fun | .operation _ _ _ _ ss _ => setsSet ss | _ => 0)).sum
-def fragSets (defs : List Definition) : Nat :=
-  (defs.map (fun | .fragment _ _ _ ss _ => setsSet ss | _ => 0)).sum
-/-- number of selection sets (`{ … }`) written in the executable definitions of a document -/
-def docSets (doc : Document) : Nat := opSets doc.defs + fragSets doc.defs
-
-mutual
-theorem inlSel_le : ∀ s : Selection, inlSel s ≤ setsSel s
-  | .field _ _ _ _ none _ => by simp [inlSel]
-  | .field _ _ _ _ (some ss) _ => by simp [inlSel]
-  | .spread _ _ _ => by simp [inlSel]
-  | .inline _ _ ss _ => by
-    have := inlSet_le ss
-    simp only [inlSel, setsSel]; omega
-theorem inlSet_le : ∀ ss : SelectionSet, 1 + inlSet ss ≤ setsSet ss
-  | .mk sels _ => by
-    have := inlSels_le sels
-    simp only [inlSet, setsSet]; omega
-theorem inlSels_le : ∀ sels : List Selection, inlSels sels ≤ setsSels sels
-  | [] => by simp [inlSels, setsSels]
-  | s :: rest => by
-    have := inlSel_le s
-    have := inlSels_le rest
-    simp only [inlSels, setsSels]; omega
-end
-
-theorem potential_nil_eq (w) (frags : List (String × String × SelectionSet)) :
-    potential w frags [] = (frags.map w).sum := by
-  induction frags with
-  | nil => simp [potential]
-  | cons g gs ih => rw [potential_cons_frag, ih]; simp
-
-theorem fragsSize_le (doc : Document) : fragsSize (fragTable doc) ≤ fragSets doc.defs := by
-  unfold fragTable
-  rw [fragsSize, potential_nil_eq, List.map_reverse, List.sum_reverse]
-  generalize doc.defs = defs
-  induction defs with
-  | nil => simp [fragSets]
-  | cons d ds ih =>
-    simp only [fragSets, List.map_cons, List.sum_cons] at *
-    cases d with
-    | fragment n tc dirs ss loc =>
-      have := inlSet_le ss
-      simp only [List.filterMap_cons, List.map_cons, List.sum_cons, fragWeight]
-      omega
-    | _ => simpa [List.filterMap_cons] using ih
-
-theorem ite_cases {α : Type} (b : Bool) (x y r : α) (h : (if b = true then x else y) = r) : x = r ∨ y = r := by
-  cases b <;> simp_all
-
-theorem selectOpLoop_sets (opName : String) : ∀ (defs : List Definition) (cur : Option (OpType × SelectionSet))
-    (op : OpType) (ss : SelectionSet), selectOpLoop opName defs cur = .ok (some (op, ss)) →
-    cur = some (op, ss) ∨ setsSet ss ≤ opSets defs
-  | [], cur, op, ss => by
-    intro h
-    simp only [selectOpLoop] at h
-    left
-    cases h; rfl
-  | d :: rest, cur, op, ss => by
-    intro h
-    have hcons : ∀ x, opSets rest ≤ x + opSets rest := fun x => by omega
-    cases d with
-    | operation o name vars dirs s1 loc =>
-      simp only [selectOpLoop] at h
-      have hd : opSets (.operation o name vars dirs s1 loc :: rest) = setsSet s1 + opSets rest := by
-        simp [opSets]
-      rw [hd]
-      rcases ite_cases _ _ _ _ h with h | h
-      · cases h
-      · rcases ite_cases _ _ _ _ h with h | h
-        · rcases selectOpLoop_sets opName rest _ op ss h with h1 | h1
-          · right
-            cases h1
-            omega
-          · right; omega
-        · rcases selectOpLoop_sets opName rest _ op ss h with h1 | h1
-          · exact Or.inl h1
-          · right; omega
-    | fragment n tc dirs s1 loc =>
-      simp only [selectOpLoop] at h
-      have hd : opSets (.fragment n tc dirs s1 loc :: rest) = opSets rest := by simp [opSets]
-      rw [hd]
-      exact selectOpLoop_sets opName rest cur op ss h
-    | _ => simp [selectOpLoop] at h
 
 /-- T1 (corollary). The bound of `planQuery_cost_le_top_level_size` is at most the number of selection sets
 written in the document: `PlanQuery` is linear in the document size. -/
@@ -296,6 +198,90 @@ theorem plan_work_le_completed_positions (s : Schema) (doc : Document) (opName :
       have h2 := completedW_length e world (rootPlan e root ss).fields []
       simp only [List.length_map] at h1
       omega
+
+/-- T1 `merged_asts_counted_once`. In ONE `planMergedSelectionsForType` every field node is appended to exactly one group and
+every selection set is entered at most once (inline fragments syntactically, fragment bodies by the visited set), so
+the merged field ASTs of ALL groups together number at most the field nodes written directly in the collected sets plus
+those written directly in the fragment definitions — whatever the spread graph. (A counting argument: no node identity
+is needed.) -/
+theorem merged_asts_counted_once (c : Ctx) (subs : List (SelectionSet × Chain)) :
+    astCount (planMerged c subs {}).fields ≤
+      (subs.map (fun s => bSet (fun _ => 1) s.1)).sum + potential (fun f => bSet (fun _ => 1) f.2.2) c.frags [] :=
+  planMerged_astCount c subs
+
+/-- the depth bound of `exec_depth_bounded_by_selection` (Props/C09) as a function of the request -/
+def depthBound (doc : Document) (ss : SelectionSet) : Nat :=
+  1 + depthSet ss + (maxBodyDepth (fragTable doc) + 1) * (fragTable doc).length
+
+/-- T2 `plan_cost_linear_in_expanded_selection`. The selection sets merged into the sub-selections of one level are
+selection sets of the document, counted once per level: `fieldsW` (sets at or below the merged sub-selections) grows
+by at most the fragment definitions' sets per level of descent (`planMerged_fieldsW`). Hence a lazily planned
+sub-selection at response path `p` costs at most `sets(operation) + (|p| + 1) · sets(fragments)` collectInto calls —
+linear in the document for every position — and the whole request
+
+    collect ≤ topLevelSize + #planned positions · (depthBound + 1) · docSets,   #planned positions ≤ completions in the data,
+
+i.e. linear in the size of the expanded selection actually completed (document size × expansion depth × completions).
+`depthBound = 1 + depth(operation) + (deepest fragment body + 1) · #fragments` bounds |p| for EVERY document: for
+fragment-acyclic documents the expansion is finite anyway and the chain guard never fires; on cyclic (unvalidated)
+documents the guard cuts the expansion below a fragment's own body, which is what keeps |p|, and with it this
+bound, polynomial (≤ docSets³-ish per position) instead of data-dependent. -/
+theorem plan_cost_linear_in_expanded_selection (s : Schema) (doc : Document) (opName : String) (vars : Vars)
+    (world : World) (root : String) (ss : SelectionSet) (hop : selectOp s doc opName = .ok (root, ss)) :
+    let r := execPlan s doc opName vars world
+    (∀ en ∈ r.log, en.cost ≤ setsSet ss + (en.id.length + 1) * fragSets doc.defs ∧ en.id.length ≤ depthBound doc ss) ∧
+    r.counts.collect ≤ topLevelSize s doc opName + r.log.length * ((depthBound doc ss + 1) * docSets doc) ∧
+    r.log.length ≤ world.size := by
+  intro r
+  have hwork := plan_work_le_completed_positions s doc opName vars world
+  simp only [r, execPlan, hop] at hwork ⊢
+  generalize he : (⟨s, fragTable doc, if docDynamic doc then some vars else none⟩ : Env) = e at hwork ⊢
+  have hfr : e.frags = fragTable doc := by rw [← he]
+  have hFS := fragSetsTbl_le doc
+  have hop' := selectOp_sets s doc opName root ss hop
+  have hroot := rootPlan_fieldsW e root ss
+  -- per entry
+  have hcost := execW_cost e (setsSet ss + fragSetsTbl e.frags) world (rootPlan e root ss).fields [] {}
+    (by simp only [List.length_nil, Nat.zero_mul]; omega) (fun _ h => by simp at h)
+  have hdepth := log_depth_le e root ss world
+  have hentry : ∀ en ∈ (execW e (rootPlan e root ss).fields [] world {}).log,
+      en.cost ≤ setsSet ss + (en.id.length + 1) * fragSets doc.defs ∧ en.id.length ≤ depthBound doc ss := by
+    intro en hen
+    have h1 := hcost en hen
+    have h2 := hdepth en hen
+    rw [hfr] at h1 h2
+    refine ⟨?_, by simpa [depthBound] using h2⟩
+    have hm : en.id.length * fragSetsTbl (fragTable doc) ≤ en.id.length * fragSets doc.defs :=
+      Nat.mul_le_mul_left _ hFS
+    rw [Nat.succ_mul]
+    omega
+  refine ⟨hentry, ?_, hwork.2.2.2⟩
+  -- total
+  have hsum : ∀ (log : List Entry), (∀ en ∈ log, en.cost ≤ setsSet ss + (en.id.length + 1) * fragSets doc.defs ∧
+      en.id.length ≤ depthBound doc ss) → logCollect log ≤ log.length * ((depthBound doc ss + 1) * docSets doc) := by
+    intro log
+    induction log with
+    | nil => intro _; simp [logCollect]
+    | cons en rest ih =>
+      intro h
+      have h1 := h en (List.mem_cons_self ..)
+      have h2 := ih (fun x hx => h x (List.mem_cons_of_mem _ hx))
+      have hb : setsSet ss + (en.id.length + 1) * fragSets doc.defs ≤ (depthBound doc ss + 1) * docSets doc := by
+        have a1 : (en.id.length + 1) * fragSets doc.defs ≤ (depthBound doc ss + 1) * fragSets doc.defs :=
+          Nat.mul_le_mul_right _ (by omega)
+        have a2 : opSets doc.defs ≤ (depthBound doc ss + 1) * opSets doc.defs := Nat.le_mul_of_pos_left _ (by omega)
+        have a3 : (depthBound doc ss + 1) * docSets doc =
+            (depthBound doc ss + 1) * opSets doc.defs + (depthBound doc ss + 1) * fragSets doc.defs := by
+          simp only [docSets, Nat.mul_add]
+        omega
+      simp only [logCollect, List.map_cons, List.sum_cons, List.length_cons, Nat.succ_mul] at *
+      omega
+  have hroot2 : (rootPlan e root ss).collect ≤ topLevelSize s doc opName := by
+    have := collectTop_collect_le (e.ctx root) [] ss
+    simp only [topLevelSize, hop]
+    simpa [rootPlan, Env.ctx, hfr] using this
+  have := hsum _ hentry
+  omega
 
 /-- C09 T1 (stated here because it is about this model; re-exported by `Props/C09.lean`):
 the plan-time collection terminates on ARBITRARY fragment tables — cyclic, with duplicate or unknown names —
